@@ -5,32 +5,48 @@ import DsProofs.AValProofs
 # C10 — the decision-diagram algebra agrees with the pointwise semantics
 
 About `datascope/utility/add.py` (`AValue`, `ADD`) and `datascope/importance/oracle.py` (`ATally`);
-models: `Ds.AVal` (Ds/AVal.lean) and `Ds.Dd` (Ds/Add.lean).  `evalFrom L r args` is the sum of the edge
-values along the path that starts at node `r` of the first level and follows `args`; `Diagram.eval d args`
-is `evalFrom d.levels d.root args`.  `wf C L r` says that every node reachable from `r` through candidates
-`< C` is active; `Diagram.WF d` adds "one level per unit".
+models: `Ds.AVal` (Ds/AVal.lean) and `Ds.Dd` (Ds/Add.lean); helper lemmas: DsProofs/AValProofs.lean,
+DsProofs/AddProofs.lean.  Vocabulary:
+`evalFrom L r args` is the sum of the edge values along the path that starts at node `r` of the first level
+and follows `args`; `Diagram.eval d args = evalFrom d.levels d.root args`.  `wf C L r`: every node reachable
+from `r` through candidates `< C` is active.  `Diagram.WF d`: one level per unit and `wf` at the root.
+`Diagram.Rect d`: the arrays are rectangular (`diameter ≥ 1` nodes per level, `C` child slots per node).
+`edge L i j c` is `adder[i, j, c]`.  `allArgs C n` lists all `n`-tuples of candidates `< C`.
 
 Value domain (`AValue[m₀,…]` = `Dom.box`, `ATally[n,K,c]` = `Dom.tally`; `none` is the invalid value "inf"):
 * `C10_aval_monoid`, `C10_aval_monoid_ops`, `C10_aval_laws`: `__add__` with `zero` is a commutative monoid on
   the clipped values of every domain, the invalid value is absorbing; the monoid's `+`/`0` are the model's.
-* `C10_add_spec`, `C10_add_none`, `C10_ok_box`, `C10_ok_tally`: `a + b` is the component-wise sum, and it is
-  the invalid value exactly when an addend is invalid or the component-wise sum leaves the domain.
+  `C10_ok_box`, `C10_ok_tally`, `C10_ok_down`: what "inside the domain" means; both kinds of domain contain
+  zero and are downward closed (this is what associativity rests on).
+* `C10_add_spec`, `C10_add_none`: `a + b` is the component-wise sum, and it is the invalid value exactly
+  when an addend is invalid or the component-wise sum leaves the domain.
 * `C10_sub_spec`, `C10_sub_components`, `C10_subq_spec`: for a valid minuend `x`, `x - a = r` (valid `r`) iff
   `a + r = x`; i.e. the component-wise difference, invalid exactly when a component would go negative
-  or `a` is invalid.  Needs at least one component (`0 < D.dim`): `AValue[()]` is a counterexample.
-* `C10_index_bijective`: `domain()` lists every value exactly once, the valid ones first, the zero
-  value first of all and the invalid value last, so `__index__` is a bijection onto `range(domainsize)`.
+  or `a` is invalid.  Needs at least one component (`0 < D.dim`): `AValue[()]` is a counterexample (shown).
+* `C10_index_bijective`: `domain()` lists every value exactly once, the zero value first and the invalid
+  value last, so `__index__` (position in `domain()`) is a bijection onto `range(len(domain()))`, and
+  `len(domain()) = domainsize` for boxes and for tallies (stars and bars).  `C10_boxIndex`: the mixed-radix
+  formula of `AValue.__index__` is that position.
 
 Diagrams (values in any commutative monoid `V`):
 * `C10_call`: `ADD.__call__` returns the path sum (`ValueError` on a wrong number of arguments,
   `IndexError` on a candidate `≥ num_candidates`).
-* `C10_restrict_pos`, `C10_restrict_root`, `C10_restrict_single`, `C10_restrict`: `restrict(u, c)` is the
-  diagram over the remaining units whose value at `as` is the original value at `as` with `c` inserted at
-  `u`'s position — for diagrams with at least two variables; on a one-variable diagram it raises
-  `IndexError` (finding F3b).
+* `C10_restrict_pos`, `C10_restrict_root`, `C10_restrict_single`, `C10_restrict`, `C10_restrict_ok`:
+  `restrict(u, c)` of a well-formed diagram with at least two variables succeeds and is the diagram over the
+  remaining units whose value at `as` is the original value at `as` with `c` inserted at `u`'s position
+  (and it raises the same exceptions); on a one-variable diagram it raises `IndexError` (finding F3b).
 * `C10_sum`: `a.sum(b)` evaluates to `a(args) + b(args)` and raises whatever `a(args)`/`b(args)` raise.
 * `C10_modelcount`, `C10_modelcount_aval`: `modelcount()` lists, for every value of the domain in domain
-  order, the number of 0/1 assignments whose path value is that value (last entry: the invalid value).
+  order, the number of 0/1 assignments whose path value is that value; the last entry `2^n − Σ` is the
+  number of assignments evaluating to the invalid value.
+* `C10_chain_wf`, `C10_eval_chain`, `C10_tree_wf`: `construct_chain` / `construct_tree` give well-formed
+  rectangular diagrams that are zero everywhere.  `C10_update`: `update` changes exactly the listed edges
+  (to `old + v`, or `v`) and nothing else.  `C10_stack`: a stack evaluates to the element selected by the
+  factor bits.  `C10_concat`: a concatenation evaluates to the sum of its elements on their argument slices.
+* `C10_history` (+ `_restrict`, `_sum`, `_modelcount`): every diagram obtained from the constructors by any
+  sequence of `stack`, `concatenate`, `update`, `restrict`, `sum` (`Ds.Dd.Reach`) is well-formed and
+  rectangular, so the statements above hold for it with no side conditions left.
+Each theorem is followed by, or has in `C10ex` at the end, a concrete instance checked by `decide`.
 -/
 
 open Ds Ds.Dd
@@ -145,12 +161,22 @@ theorem C10_index_bijective (D : Dom) :
     (∀ v w : AVal D, D.index v = D.index w ↔ v = w) ∧
     (∀ v : AVal D, ∃ h : D.index v < D.domain.length, D.domain[D.index v] = v) ∧
     (∀ i (h : i < D.domain.length), D.index D.domain[i] = i) ∧
-    D.index (0 : AVal D) = 0 ∧ D.index (none : AVal D) = D.domain.length - 1 :=
+    D.index (0 : AVal D) = 0 ∧ D.index (none : AVal D) = D.domain.length - 1 ∧
+    D.domain.length = D.domainsize :=
   ⟨Dom.nodup_domain D, Dom.mem_domain, Dom.index_inj, fun v => ⟨Dom.index_lt v, Dom.domain_index v⟩,
-    Dom.index_domain, Dom.index_zero D, Dom.index_none D⟩
+    Dom.index_domain, Dom.index_zero D, Dom.index_none D, Dom.domain_length_eq D⟩
+
+/-- V4, boxes: `AValue.__index__` (the mixed-radix formula) is the position in `domain()` -/
+theorem C10_boxIndex (m : List Nat) (v : AVal (.box m)) : Dom.boxIndex m v.toList = (Dom.box m).index v :=
+  Dom.boxIndex_eq_index m v
+
+example : let D : Dom := .box [2, 1, 3]
+    Dom.boxIndex [2, 1, 3] (some [1, 0, 2]) = 10 ∧ D.index (AVal.clip D [1, 0, 2]) = 10 ∧ D.domainsize = 25 ∧
+    D.index (none : AVal D) = 24 ∧ Dom.boxIndex [2, 1, 3] none = 24 := by decide
 
 example : let D : Dom := .tally 1 1 2
-    D.domain.length = 19 ∧ D.index (AVal.clip D [1, 0, 1, 1, 0]) = 14 ∧ D.index (none : AVal D) = 18 := by decide
+    D.domain.length = 19 ∧ D.domainsize = 19 ∧ D.index (AVal.clip D [1, 0, 1, 1, 0]) = 14 ∧ D.index (none : AVal D) = 18 := by
+  decide
 
 /-! ## Diagrams -/
 
@@ -229,6 +255,90 @@ theorem C10_modelcount_aval (D : Dom) (hd : 0 < D.dim) (d : Diagram (AVal D)) (h
     (fun e he hn => Dom.none_notMem D (hn ▸ he)) none (Dom.nodup_domain D) Dom.mem_domain hC
   rw [h, ← hw.len]; rfl
 
+
+/-! ### D5: constructors and `update` -/
+
+section
+variable {V : Type} [AddCommMonoid V]
+
+/-- `construct_chain`: well-formed, rectangular, … -/
+theorem C10_chain_wf (units : List ℕ) (C : ℕ) :
+    (chain units C : Diagram V).WF ∧ (chain units C : Diagram V).Rect := ⟨chain_wf units C, chain_rect units C⟩
+
+/-- … and zero everywhere -/
+theorem C10_eval_chain (units : List ℕ) (C : ℕ) (as : List ℕ) : (chain units C : Diagram V).eval as = 0 :=
+  eval_chain units C as
+
+/-- `update(location, v, increment)`: the edges listed in `location` (a duplicate-free list of existing
+edges `(level, node, candidate)`) get `old + v` (or `v`), every other edge keeps its value, the graph
+(activity flags, children) is unchanged, so well-formedness is preserved -/
+theorem C10_update (d : Diagram V) (loc : List (ℕ × ℕ × ℕ)) (v : V) (inc : Bool) :
+    (loc.Nodup → (∀ e ∈ loc, inRange d.levels e) → ∀ i j c,
+      edge (d.update loc v inc).levels i j c =
+        if (i, j, c) ∈ loc then (if inc then edge d.levels i j c + v else v) else edge d.levels i j c) ∧
+    SameShape d.levels (d.update loc v inc).levels ∧
+    ((d.update loc v inc).units = d.units ∧ (d.update loc v inc).root = d.root ∧ (d.update loc v inc).C = d.C) ∧
+    (d.WF → (d.update loc v inc).WF) ∧ (d.Rect → (d.update loc v inc).Rect) :=
+  ⟨fun hnd hr i j c => edge_foldl_upd1 v inc loc d.levels hnd hr i j c, foldl_upd1_shape v inc loc d.levels,
+    ⟨rfl, rfl, rfl⟩, update_wf d loc v inc, update_rect d loc v inc⟩
+
+/-- `construct_tree` (succeeds for binary candidates, or a single unit): well-formed, rectangular, zero -/
+theorem C10_tree_wf (units : List ℕ) (C : ℕ) :
+    (units ≠ [] → (C = 2 ∨ units.length = 1) → ∃ d : Diagram V, tree units C = .ok d) ∧
+    ∀ d : Diagram V, tree units C = .ok d →
+      d.WF ∧ d.Rect ∧ d.units = units ∧ d.C = C ∧ ∀ as, d.eval as = 0 :=
+  ⟨tree_ok units C, fun d h =>
+    ⟨(tree_spec units C d h).1, tree_rect units C d h, (tree_spec units C d h).2.1, (tree_spec units C d h).2.2.1,
+      (tree_spec units C d h).2.2.2.2⟩⟩
+
+/-- `stack(factors, elements)` over well-formed rectangular binary elements of equal depth `n`: the
+value at `bits ++ as` is the value at `as` of the element selected by `bits` read as a binary number
+(`itertools.product` order) -/
+theorem C10_stack (factors : List ℕ) (e0 : Diagram V) (rest : List (Diagram V)) (d : Diagram V) (n : ℕ)
+    (h : stack factors (e0 :: rest) = .ok d)
+    (hwf : ∀ e ∈ e0 :: rest, e.WF ∧ e.Rect ∧ e.C = 2 ∧ e.units.length = n) :
+    d.WF ∧ d.Rect ∧ d.C = 2 ∧ d.units = factors ++ e0.units ∧ (e0 :: rest).length = 2 ^ factors.length ∧
+    ∀ bits as, bits.length = factors.length → (∀ b ∈ bits, b < 2) → (∀ a ∈ as, a < 2) →
+      ∃ hm : bitsVal bits < (e0 :: rest).length, d.eval (bits ++ as) = ((e0 :: rest)[bitsVal bits]).eval as :=
+  stack_spec factors e0 rest d n h
+    ⟨fun e he => (hwf e he).1, fun e he => (hwf e he).2.1, fun e he => (hwf e he).2.2.1,
+      fun e he => by rw [(hwf e he).1.len]; exact (hwf e he).2.2.2⟩
+
+/-- `concatenate(elements)` over well-formed elements: the value at the concatenated argument
+lists is the sum of the elements' values on their own slices -/
+theorem C10_concat (els : List (Diagram V)) (d : Diagram V) (h : concatenate els = .ok d)
+    (hwf : ∀ e ∈ els, e.WF) :
+    d.WF ∧ ((∀ e ∈ els, e.Rect) → d.Rect) ∧ d.units = els.flatMap (·.units) ∧ d.C = 2 ∧
+    ∀ ass : List (List ℕ),
+      List.Forall₂ (fun (x : Diagram V) as => as.length = x.units.length ∧ ∀ a ∈ as, a < 2) els ass →
+      d.eval ass.flatten = (List.zipWith (fun (x : Diagram V) as => x.eval as) els ass).sum :=
+  ⟨(concat_spec els d h hwf).1, concat_rect els d h, (concat_spec els d h hwf).2.1, (concat_spec els d h hwf).2.2.1,
+    (concat_spec els d h hwf).2.2.2.2⟩
+
+/-! ### D6: histories -/
+
+/-- every diagram built from `construct_chain` / `construct_tree` by any sequence of `stack` (binary elements
+of equal depth), `concatenate`, `update`, `restrict`, `sum` is well-formed and rectangular … -/
+theorem C10_history (d : Diagram V) (h : Reach d) : d.WF ∧ d.Rect := h.inv
+
+/-- … hence D1–D4 hold for it without further hypotheses: `restrict` -/
+theorem C10_history_restrict (d d' : Diagram V) (u c : ℕ) (hd : Reach d) (h : d.restrict u c = .ok d') :
+    Reach d' ∧ ∀ as, d'.call as = d.call (as.insertIdx (d.units.idxOf u) c) :=
+  ⟨.restrict d d' u c hd h, restrict_call d d' u c hd.inv.1 (restrict_two_le d d' u c hd.inv.1 h) h⟩
+
+/-- `sum` -/
+theorem C10_history_sum (a b s : Diagram V) (ha : Reach a) (hb : Reach b) (h : a.sum b = .ok s) :
+    Reach s ∧ ∀ as, s.call as = (do let x ← a.call as; let y ← b.call as; pure (x + y)) :=
+  ⟨.sum a b s ha hb h, sum_call a b s ha.inv.1 hb.inv.1 h⟩
+
+end
+
+/-- `modelcount` -/
+theorem C10_history_modelcount (D : Dom) (hd : 0 < D.dim) (d : Diagram (AVal D)) (h : Reach d) (hC : d.C = 2) :
+    d.modelcount AVal.sub? (D.vecs.map (AVal.clip D)) =
+      D.domain.map (fun e => (((allArgs 2 d.units.length).countP (fun as => evalFrom d.levels d.root as = e) : ℕ) : Int)) :=
+  C10_modelcount_aval D hd d h.inv.1 hC
+
 /-! ### concrete instances -/
 
 namespace C10ex
@@ -242,6 +352,7 @@ def d1 : Diagram (AVal B3) := ((chain [10, 11] 2).update [(0, 0, 0)] (v 1) true)
 def d2 : Diagram (AVal B3) := (chain [10] 2).update [(0, 0, 1)] (v 1) true
 
 example : d0.WF ∧ d1.WF ∧ d2.WF := by decide
+example : (chain [10, 11] 2 : Diagram (AVal B3)).call [1, 0] = .ok 0 ∧ (chain [10, 11] 2 : Diagram (AVal B3)).WF := by decide
 example : d0.call [1, 1] = .ok (v 3) ∧ d0.call [1] = .error Err.valueError ∧ d0.call [1, 2] = .error Err.indexError := by
   decide
 example : (d0.restrict 11 1).map (fun d' => (d'.units, [d'.call [1], d'.call [0]])) = .ok ([10], [.ok (v 3), .ok (v 2)]) := by
@@ -254,4 +365,21 @@ example : (d0.sum d1).map (fun s => [s.call [0, 0], s.call [1, 0], s.call [1, 1]
 example : d0.modelcount AVal.sub? (B3.vecs.map (AVal.clip B3)) = [1, 1, 1, 1, 0] := by decide
 example : ((d0.sum d1).map (fun s => s.modelcount AVal.sub? (B3.vecs.map (AVal.clip B3)))) = .ok [0, 2, 0, 0, 2] := by
   decide
+
+example : Reach d0 ∧ Reach d1 ∧ Reach d2 :=
+  ⟨.update _ _ _ _ (.update _ _ _ _ (.chain _ _)), .update _ _ _ _ (.update _ _ _ _ (.chain _ _)),
+    .update _ _ _ _ (.chain _ _)⟩
+example : edge d0.levels 0 0 1 = v 1 ∧ edge d0.levels 1 0 1 = v 2 ∧ edge d0.levels 1 0 0 = 0 ∧
+    inRange (chain [10, 11] 2 : Diagram (AVal B3)).levels (0, 0, 1) := by decide
+/-- a tree over two units with updated leaves -/
+def t0 : Except Err (Diagram (AVal B3)) := (tree [20, 21] 2).map (fun t => t.update [(1, 1, 0)] (v 2) true)
+example : t0.map (fun t => (t.units, [t.call [0, 0], t.call [1, 0], t.call [1, 1]])) =
+    .ok ([20, 21], [.ok (v 0), .ok (v 2), .ok (v 0)]) ∧ t0.map (·.diameter) = .ok 2 := by decide
+example : (stack [5] [d0, d1]).map (fun s => (s.units, [s.call [0, 1, 1], s.call [1, 1, 1], s.call [1, 0, 0]])) =
+    .ok ([5, 10, 11], [d0.call [1, 1], d1.call [1, 1], d1.call [0, 0]]) ∧
+    (stack [5] [d0, d1]).map (·.diameter) = .ok 2 := by decide
+example : bitsVal [1, 0] = 2 ∧ d0.Rect ∧ d1.Rect := by
+  refine ⟨by decide, ?_, ?_⟩ <;> exact (C10_history _ (.update _ _ _ _ (.update _ _ _ _ (.chain _ _)))).2
+example : (concatenate [d0, d2]).map (fun s => (s.units, [s.call [1, 1, 1], s.call [0, 1, 0]])) =
+    .ok ([10, 11, 10], [.ok none, .ok (v 2)]) := by decide
 end C10ex
